@@ -43,6 +43,19 @@ def solution(rng, n, db, feat):
     if not ({"Na", "K", "Ca", "Mg"} & names):
         lines.append(f" Na {num(rng, 0.5, 20)}")
         names.add("Na")
+    if db == "phreeqc.dat" and rng.random() < 0.35:
+        # analysed waters that report several valence states of one element (redox disequilibrium of an initial solution)
+        feat.add("sol:valence-states")
+        for a, b in rng.sample([("Fe(2)", "Fe(3)"), ("N(5)", "N(-3)"), ("S(6)", "S(-2)"), ("Mn(2)", "Mn(3)"), ("N(5)", "N(3)")], rng.randint(1, 2)):
+            if a == "S(6)" and any(l.strip().startswith("S(6)") for l in lines):
+                lines.append(f" S(-2) {num(rng, 0.001, 0.1)}")
+                continue
+            if any(l.strip().startswith(a.split("(")[0] + "(") for l in lines):
+                continue
+            lines.append(f" {a} {num(rng, 0.01, 0.5)}")
+            lines.append(f" {b} {num(rng, 0.001, 0.2)}")
+        if not any(l.strip().startswith("pe ") for l in lines):
+            lines.append(f" pe {rng.choice([3, 6, 9])}")
     if db == "iso.dat":
         feat.add("sol:isotopes")
         if "C" in names:
@@ -260,7 +273,7 @@ def gen_case(rng, force=None):
     if "mix" in kinds:
         defs += ["MIX 1", f" 1 {rng.choice([0.5, 0.25, 1.0])}", f" 2 {rng.choice([0.5, 0.75, 0.1])}"]
     if "rxn" in kinds:
-        defs += ["REACTION 1", f" {rng.choice(['NaCl 1', 'NaCl 1 CaCl2 0.5', 'HCl 1', 'CO2 1 H2O 2'])}",
+        defs += ["REACTION 1", f" {rng.choice(['NaCl 1', 'NaCl 1 CaCl2 0.5', 'HCl 1', 'CO2 1 H2O 2'] + (['O2 1', 'FeCl2 1', 'CH2O 1', 'NH3 1 O2 0.5'] if db == 'phreeqc.dat' else []))}",
                  f" {steps_list(rng, [0.001, 0.002, 0.005, 0.0001], feat, 'rxn')} {rng.choice(['', 'mmol', 'moles'])}".rstrip()]
     if "temp" in kinds:
         defs += ["REACTION_TEMPERATURE 1", " " + steps_list(rng, [25, 30, 45, 60], feat, "temp")]
